@@ -153,14 +153,18 @@ class Monitors:
             self.op_mark = len(sim.BROKER.oplog)
             # did this step append a *Failed history event (failure path of a fan-out)?
             failed_now = False
-            joined_now = 0
+            joined_now = False      # a Parallel/Map state that is the LAST state of its Branch (or of the machine) completed
             for arn_, h in list(inst.eng.execution_history.items()):
                 k0 = self.hist_mark.get(arn_, 0)
                 new_events = list(h)[k0:]
                 self.hist_mark[arn_] = len(h)
                 if any(("Failed" in e["type"] or "TimedOut" in e["type"]) for e in new_events):
                     failed_now = True
-                joined_now += len([e for e in new_events if e["type"] in ("ParallelStateExited", "MapStateExited")])
+                for e in new_events:
+                    if e["type"] in ("ParallelStateExited", "MapStateExited"):
+                        nm = (e.get("stateExitedEventDetails") or {}).get("name")
+                        if self.join_is_terminal(inst, nm):
+                            joined_now = True
             acked = {}          # execution ARN -> first event acknowledged for it in this step
             pending_start = None
             for o in ops:
@@ -187,9 +191,10 @@ class Monitors:
                         continue
                     tag = ""
                     if self.had_join or inst.eng.branch_metadata:
-                        # (a single join that has a Next publishes its successor first: only the successor published
-                        # by an ENCLOSING join, i.e. two joins completed in this one step, falls under the finding)
-                        if o[0] == "broadcast" or joined_now >= 2:
+                        # (a join that has a Next publishes its successor first: only what is published or announced
+                        # after a fan-out state with End:true has completed - by the enclosing join, or the terminal
+                        # notification - falls under the finding)
+                        if o[0] == "broadcast" or joined_now:
                             tag = "[join-end] "          # known finding: a completed fan-out acks its held events before the terminal record / the successor of the enclosing join
                         elif failed_now:
                             tag = "[join-failure] "      # known finding: check_pending_results acks before retry/catch successor
@@ -218,6 +223,29 @@ class Monitors:
                 elif delay:
                     # known finding: the retry-delay timer of a retried state cannot be cancelled (the engine keeps no handle)
                     self.fail("C03 [retry-delay-timer] %d retry-delay timer(s) of a terminated Branch still armed after every execution has ended" % len(delay))
+
+    @staticmethod
+    def join_is_terminal(inst, name):
+        """True when some stored definition has a state `name` with End:true (searched through Branches/Iterators)."""
+        def walk(sm):
+            if not isinstance(sm, dict):
+                return False
+            for k, st in (sm.get("States") or {}).items():
+                if not isinstance(st, dict):
+                    continue
+                if k == name and st.get("End"):
+                    return True
+                for b in st.get("Branches") or []:
+                    if walk(b):
+                        return True
+                if walk(st.get("Iterator")) or walk(st.get("ItemProcessor")):
+                    return True
+            return False
+        try:
+            with untraced():
+                return any(walk(plain(v).get("definition")) for v in list(inst.eng.asl_store.values()))
+        except Exception:
+            return True
 
     def check_history(self, arn, hist, rec, sts, term):
         prev_ts = None
